@@ -329,7 +329,9 @@ class ExponentiatedGradient(BaseEstimator, MetaEstimatorMixin):
             pred = self._pmf_predict(X)
             randomized_pred = np.zeros(pred.shape[0])
             for i in range(pred.shape[0]):
-                randomized_pred[i] = random_state.choice(pred.iloc[i, :], p=self.weights_)
+                randomized_pred[i] = random_state.choice(
+                    pred.iloc[i, :], p=self.weights_[pred.columns]
+                )
             return randomized_pred
 
     def _pmf_predict(self, X):
